@@ -12,6 +12,7 @@
      check_mask -> pop_unchecked            C07_single_checker
      CastleRights::to_index                 C07_rights_index   (after any make-move, unconditionally < 16)
      u16 clocks                             C07_clocks_saturate
+     move_unchecked_into: piece_of_unchecked(source)   C07_move_source_occupied (every accepted move, every reachable board)
    The premises of the capacity and king-presence lemmas are PROVED for every reachable board (standard / parsed / built /
    reached by any number of accepted moves): C07_capacity_reachable, C07_king_present_reachable (kings are never captured,
    the number of men never grows: proofs/Reachable.v, ReachableMore.v). *)
@@ -82,3 +83,8 @@ Theorem C07_king_present_reachable : forall b c, Reachable b ->
   king_sq b c < 64 /\ mem (colors b c) (king_sq b c) = true /\ mem (b_king b) (king_sq b c) = true.
 Proof. exact king_present_reachable. Qed.
 Print Assumptions C07_king_present_reachable.
+
+Theorem C07_move_source_occupied : forall b m, Reachable b -> is_legal b m = true ->
+  m_src m < 64 /\ m_dst m < 64 /\ exists pc, raw_get b (m_src m) = Some (b_turn b, pc).
+Proof. exact move_source_reachable. Qed.
+Print Assumptions C07_move_source_occupied.
